@@ -2,6 +2,7 @@
 //! properties: C16
 //! note: the bottleneck formula of PaymentPath::max_final_value_msat: the contribution a path is raised to, plus the aggregated fee of the following hops, never exceeds the bottleneck hop's maximum
 //! trusted: R15 (statement slicing): the function is built from iterator chains and a HashMap and cannot be verified whole; the unit extracts the single statement `let hop_max_final_value_contribution = <expr>;` from the real function on every run and verifies <expr> as a function of the three variables it reads (hop_max_msat, next_hops_aggregated_base, next_hops_aggregated_prop); everything else in the function is dropped and not claimed
+//! trusted: R15 (deep slice): the index expression of the `map_err` on the aggregation, verbatim as a function of the hop index (an empty tail cannot overflow: compute_aggregated_base_prop_fee of no hops is (0, 0), proved in u16c, hence the precondition that a following hop exists)
 //! trusted: assume_specification for core::cmp::min / core::cmp::max
 //! note: that the aggregated (base, proportional) fee of the following hops covers the fee those hops charge when composed hop by hop is proved in unit u16c (lemma_aggregate_covers_composition)
 use vstd::prelude::*;
@@ -59,6 +60,22 @@ pub assume_specification<T: core::cmp::Ord>[core::cmp::min::<T>](a: T, b: T) -> 
     cmp::min(next_hops_aggregated_prop, 999_999)
 //@with
     next_hops_aggregated_prop
+//@end
+// when the fees of the hops after hop idx overflow on aggregation, the hop whose liquidity get_route marks exhausted (so that the next search avoids it) is one of THOSE hops - never the hop being examined or an earlier one (in particular never the payer's own first-hop channel, which valid alternative paths share)
+//@extract lightning/src/routing/router.rs :: impl PaymentPath :: fn max_final_value_msat
+//@slice R15
+    compute_aggregated_base_prop_fee(next_hops_feerates_iter) .map_err(|_| $e:seq)?;
+//@with
+    fn hop_blamed_when_the_fees_after_hop_idx_overflow(idx: usize, n_hops: usize) -> usize { $e }
+//@ret r
+//@requires
+    idx + 1 < n_hops,
+//@ensures P C16 an-overflow-of-the-aggregated-fees-after-a-hop-is-blamed-on-one-of-the-hops-aggregated-never-on-the-hop-examined-or-an-earlier-one
+    idx < r < n_hops,
+//@mutant overflow_blamed_on_the_hop_being_examined
+    .map_err(|_| idx + 1)?;
+//@with
+    .map_err(|_| idx)?;
 //@end
 }
 fn main() {}
